@@ -39,7 +39,7 @@ func (c *c14Case) Key() string { return core.KeyOf(c) }
 var c14TitleVals = []string{"str_x", "str_empty", "int0", "int1", "false", "true", "nil", "missing", "str_false", "float64_0", "uint8_0", "float_small", "float_huge", "float_frac", "uint64_max", "int64_min", "float32_third"}
 
 func c14Data() map[string]any {
-	d := map[string]any{"w": "W", "sx": "SX", "cv": "b1 b2", "t": true, "f": false, "one": 1, "zero": 0, "col": "blue", "ss": "color: blue; top: 0", "cnt": 3, "nilv": nil}
+	d := map[string]any{"w": "W", "sx": "SX", "cv": "b1 b2", "t": true, "f": false, "one": 1, "zero": 0, "col": "blue", "ss": "color: blue; top: 0", "cnt": 3, "nilv": nil, "lst": []int{1, 2, 3}}
 	for _, n := range c14TitleVals {
 		if n == "missing" {
 			continue
@@ -89,6 +89,9 @@ func (c *c14Case) build() (tpl string, want map[string]string, wantClass []strin
 	case "str":
 		bound = append(bound, `:class="cv"`)
 		wantClass = append(wantClass, "b1", "b2")
+	case "objcall": // values that are calls and index expressions with commas and brackets of their own
+		bound = append(bound, `:class="{many: len(lst) > 1, first: lst[0] == 1, none: min(one, zero) > 0, pair: [1, 2][1] == 2}"`)
+		wantClass = append(wantClass, "many", "first", "pair")
 	case "obj1":
 		bound = append(bound, `:class="{on: t, off: f}"`)
 		wantClass = append(wantClass, "on")
@@ -365,6 +368,9 @@ var c14StyleStatics = map[string]map[string]string{
 	`font-family: 'a;b', serif; top: 0`:                     {"font-family": `'a;b', serif`, "top": "0"},
 	`background: url("x;y.png") no-repeat; color: red;`:     {"background": `url("x;y.png") no-repeat`, "color": "red"},
 	`color: red`: {"color": "red"},
+	// property names are case-insensitive for CSS, but every declaration written stays
+	`Margin: 0; padding: 1px`:          {"margin": "0", "padding": "1px"},
+	`BORDER: none; Top: 0; z-index: 2`: {"border": "none", "top": "0", "z-index": "2"},
 }
 
 func (c *c14Case) runStyleValues(ctx *core.Ctx) {
@@ -402,7 +408,10 @@ func (c *c14Case) runStyleValues(ctx *core.Ctx) {
 		return
 	}
 	st, _ := htmlcmp.Attr(e, "style")
-	got := parseStyle(st)
+	got := map[string]string{}
+	for k, v := range parseStyle(st) {
+		got[strings.ToLower(k)] = v // (names compared without regard to case)
+	}
 	ctx.Outcome(st)
 	if fmt.Sprint(sortedKV(got)) != fmt.Sprint(sortedKV(want)) {
 		ctx.Violation("style-merge", "style-values/bound="+c.StyleB+"/show="+c.Show, "semicolon-or-colon-inside-a-value", fmt.Sprintf("tpl %q: style %q parses to %v, want %v", tpl, st, sortedKV(got), sortedKV(want)))
@@ -657,7 +666,7 @@ func init() {
 			for _, ts := range []string{"none", "static", "interp"} {
 				for _, tb := range tbs {
 					for _, cs := range []bool{false, true} {
-						for _, cb := range []string{"none", "str", "obj1", "obj2", "obj3", "obj4", "obj5", "num"} {
+						for _, cb := range []string{"none", "str", "obj1", "obj2", "obj3", "obj4", "obj5", "num", "objcall"} {
 							for _, ss := range []bool{false, true} {
 								for _, sb := range []string{"none", "obj1", "obj2", "str"} {
 									for _, sh := range []string{"none", "t", "sx", "f", "zero"} {
